@@ -1535,7 +1535,7 @@ int ov_pcm_seek_page(OggVorbis_File *vf,ogg_int64_t pos){
             bisect-=CHUNKSIZE;
 
             /* don't repeat/loop on a read we've already performed */
-            if(bisect<=begin)bisect=begin+1;
+            if(bisect<=begin)bisect=begin; /* the page starting at begin itself may be the one we want */
 
             /* seek and cntinue bisection */
             result=_seek_helper(vf,bisect);
@@ -1584,7 +1584,7 @@ int ov_pcm_seek_page(OggVorbis_File *vf,ogg_int64_t pos){
                    little bit, and try again */
                 end=result;
                 bisect-=CHUNKSIZE;
-                if(bisect<=begin)bisect=begin+1;
+                if(bisect<=begin)bisect=begin; /* the page starting at begin itself may be the one we want */
                 result=_seek_helper(vf,bisect);
                 if(result) goto seek_error;
               }else{
